@@ -51,20 +51,31 @@ def self_methods(b):
     if not params:
         return None, set()
     l0 = params[0].get("local")
+    ld = hir.LocalDefs(b.hir)
+
+    def is_receiver(e, depth=0):
+        """the receiver parameter, a field of it, or a local that was bound to (a reference to / copy of) it"""
+        e = hir.peel_refs(hir.strip(e))
+        while e.get("k") == "field":
+            e = hir.peel_refs(hir.strip(e["e"]))
+        if e.get("k") != "path" or hir.res_local(e) is None:
+            return False
+        if hir.res_local(e) == l0:
+            return True
+        d = ld.get(hir.res_local(e))
+        if depth < 4 and d is not None and d[1] is not None and d[2] == ():
+            init = hir.peel_refs(hir.strip(d[1]))
+            if init.get("k") == "mcall" and init["m"] in ("clone", "as_ref", "borrow", "deref", "to_owned") and not init["args"]:
+                init = init["recv"]
+            return is_receiver(init, depth + 1)
+        return False
     M = set()
     for n in hir.walk(b.hir["value"]):
-        if n.get("k") == "mcall":
-            rc = hir.peel_refs(n["recv"])
-            while rc.get("k") == "field":
-                rc = hir.peel_refs(rc["e"])
-            if rc.get("k") == "path" and hir.res_local(rc) == l0:
-                M.add(n["m"])
+        if n.get("k") == "mcall" and is_receiver(n["recv"]):
+            M.add(n["m"])
         if n.get("k") == "call":
             for a in n["args"][:1]:
-                a = hir.peel_refs(a)
-                while a.get("k") == "field":
-                    a = hir.peel_refs(a["e"])
-                if a.get("k") == "path" and hir.res_local(a) == l0:
+                if is_receiver(a):
                     M.add("fn:" + hir.last(hir.call_def(n) or "?"))
     return params[0].get("name"), M
 
